@@ -384,7 +384,7 @@ func runC02(p *Prog, r *Report) {
 	} else {
 		r.Func(funcName(fn))
 		isErrMethod := func(v ssa.Value, name string) bool {
-			c, ok := canon(v).(*ssa.Call)
+			c, ok := canon(stripAllConv(v)).(*ssa.Call)
 			if !ok {
 				return false
 			}
